@@ -110,6 +110,13 @@ CLAIMED["C13"] = ("DESIGN.md §4 C13",
     "quoted key; number and \\u tokens reach std's converters only through character-level gates on the same token; depth accounting is paired and bounded; members keep "
     "document order; serialiser writes stored order with the RFC separators. Completeness of the number gate and numeric values are not decided.")
 
+CLAIMED["C14"] = ("DESIGN.md §4 C14",
+    "R-MACRO (macro_rules! token-tree lints: bound metavariables transcribed at the same depth, accumulator order, sibling munchers), R-TABLE (Option/Vec conversions), expansion corpus: generated derive / json_map! types and json! literals compiled with the driver and compared structurally (never run)",
+    "Decides: no macro arm drops caller tokens, accumulators keep order, array and object munchers accept the same element forms, numeric impls pair up; Option<->Null and "
+    "Vec<->Array tables; for every corpus type (quick: 32 types / 40 literals, thorough: 300 / 400 from VERIF_SEED) from_json reads and to_json writes each field under its "
+    "declared (renamed) key in declaration order with identical, injective key maps, tuple structs use indices 0..n with the right arity test, enums map declared strings "
+    "both ways; every json! literal expands to a constructor tree of the literal's shape. Numeric casts and programs outside the corpus are not decided.")
+
 NOT_YET = {}
 
 NOT_APPLICABLE = {
@@ -145,7 +152,7 @@ def main():
             na.append({"property_id": pid, "reason": NOT_YET.get(pid, "check not implemented yet in this revision of /verif (planned in DESIGN.md §4); not claimed until its rule instances are armed and tested")})
     man = {
         "version": 1,
-        "setup_cmd": "python3 -m hv.extract A B C D E",
+        "setup_cmd": "python3 -m hv.extract A B C D E && python3 -m hv.warm",
         "hooks": {
             "guard": "humphrey_verif",
             "enable": "none needed: the rustc_private driver sees crate-private items; no hook commits exist",
